@@ -64,7 +64,7 @@ Theorem tie_disp2eig_real : forall (a : list (list R)) (mass : list R), rect a -
 Proof.
   intros a mass Hr. unfold ge_disp2eig_r, disp2eig. cbv zeta.
   match goal with |- context [Nat.eqb (snd (mat_shape a)) ?k] => rewrite (shape_test a k (length mass) Hr) by lia end.
-  destruct (shape_ok a (length mass)); [|reflexivity].
+  destruct (shape_ok a (length mass)); cbn [negb]; [|reflexivity].   (* if/else and guard-clause form alike *)
   f_equal. rops. rewrite normalise_rows. rewrite np_repeat_3.
   unfold rm_mul_row. rewrite map_map. apply map_ext. intros row. reflexivity.
 Qed.
@@ -118,7 +118,7 @@ Theorem tie_disp2eig_complex : forall (a : list (list cR)) (mass : list R), rect
 Proof.
   intros a mass Hr Hnz. unfold ge_disp2eig_c, disp2eig_c, cplx, cpx. cbv zeta.
   match goal with |- context [Nat.eqb (snd (mat_shape a)) ?k] => rewrite (shape_test a k (length mass) Hr) by lia end.
-  destruct (shape_ok a (length mass)); [|reflexivity].
+  destruct (shape_ok a (length mass)); cbn [negb]; [|reflexivity].   (* if/else and guard-clause form alike *)
   f_equal. rops. rewrite np_repeat_3.
   rewrite cnormalise_rows.
   - unfold cm_scale_row. rewrite map_map. apply map_ext. intros row. reflexivity.
